@@ -20,10 +20,10 @@ Notation "a # b" := (Qmake a b) (at level 55, no associativity) : Q_scope.
 
 (* ------------------------------------------------------------------ executable carrier
    Geom.Vec.Q_carrier with faster sin / cos: the prelude's Taylor sums keep exact rationals whose size grows
-   by ~400 bits per term (gcd-bound, minutes per call); here 24 terms (|x| <= pi: remainder < 1e-37), every term and partial sum is truncated to
-   96 binary digits (total error < 2^-88, far below the 1e-9 tolerance of the cases that use them).
+   by ~400 bits per term (gcd-bound, minutes per call); here 16 terms (|x| <= pi: remainder < 1e-20), every term and partial sum is truncated to
+   72 binary digits (total error < 2^-64, far below the 1e-9 tolerance of the cases that use them).
    The generated definitions are carrier-generic, so this instance runs the very same constants. *)
-Definition Qtr (q : Q) : Q := (Qnum q * 2 ^ 96 / Zpos (Qden q)) # (2 ^ 96).   (* 96 binary digits, no gcd *)
+Definition Qtr (q : Q) : Q := (Qnum q * 2 ^ 72 / Zpos (Qden q)) # (2 ^ 72).   (* 72 binary digits, no gcd *)
 Fixpoint Qtaylor_t (fuel : nat) (x2 term : Q) (k : Z) (acc : Q) : Q :=
   match fuel with
   | O => acc
@@ -31,10 +31,11 @@ Fixpoint Qtaylor_t (fuel : nat) (x2 term : Q) (k : Z) (acc : Q) : Q :=
       let t := Qtr (- term * x2 / inject_Z ((k + 1) * (k + 2))) in
       Qtaylor_t f x2 t (k + 2) (Qtr (acc + t))
   end.
-Definition Qcos_t (x : Q) : Q := let x := Qtr x in Qtaylor_t 24 (Qtr (x * x)) 1 0 1.
-Definition Qsin_t (x : Q) : Q := let x := Qtr x in Qtaylor_t 24 (Qtr (x * x)) x 1 x.
-(* sqrt on a 200-bit truncation of the argument (keeps Z.sqrt's operand small) *)
-Definition Qsqrt_t (x : Q) : Q := Qsqrt (Qtr x).
+Definition Qcos_t (x : Q) : Q := let x := Qtr x in Qtaylor_t 16 (Qtr (x * x)) 1 0 1.
+Definition Qsin_t (x : Q) : Q := let x := Qtr x in Qtaylor_t 16 (Qtr (x * x)) x 1 x.
+(* floor(sqrt(x * 4^72)) / 2^72: absolute error below 2^-72, no gcd *)
+Definition Qsqrt_t (x : Q) : Q :=
+  if (Qnum x <=? 0)%Z then 0%Q else Z.sqrt (Qnum x * 2 ^ 144 / Zpos (Qden x)) # (2 ^ 72).
 
 Definition Qx_carrier : Carrier Q := {|
   c0 := 0%Q; c1 := 1%Q;
